@@ -4,12 +4,12 @@ package main
 
 import (
 	"fmt"
-	"strconv"
 	"go/ast"
 	"go/constant"
 	"go/token"
 	"go/types"
 	"math/big"
+	"strconv"
 	"strings"
 
 	"golang.org/x/tools/go/packages"
@@ -17,66 +17,69 @@ import (
 
 // Unit is one function (or lemma) under verification.
 type Unit struct {
-	eng       *Engine
-	pkg       *packages.Package
-	info      *types.Info
-	fset      *token.FileSet
-	pkgName   string
-	key       string
-	decl      *ast.FuncDecl
-	obj       *types.Func
-	sig       *types.Signature
-	c         *Ctx
-	ct        *FuncContract
-	cs        *ContractSet
-	obls      []*Obligation
-	nameCount map[string]int
-	entry     *State
-	entryVals map[*types.Var]Term
-	results   []*types.Var
-	boxed     map[*types.Var]bool
-	volatile  map[*types.Var]bool
-	loopOrd   int
-	paramSyms map[string]string
-	defers    []deferred
-	abstracted bool
-	unsupported []string
-	specDepth int
-	unfolded  map[string]bool
-	exprCount map[string]int
-	retStates []*State
-	curFuncLit *ast.FuncLit
-	loopStack []*loopCtx
-	havocAll  bool
-	allocSites []allocSite
-	sliceDefs map[string]string
-	lenHints  map[string]int64
+	eng             *Engine
+	pkg             *packages.Package
+	info            *types.Info
+	fset            *token.FileSet
+	pkgName         string
+	key             string
+	decl            *ast.FuncDecl
+	obj             *types.Func
+	sig             *types.Signature
+	c               *Ctx
+	ct              *FuncContract
+	cs              *ContractSet
+	obls            []*Obligation
+	nameCount       map[string]int
+	entry           *State
+	entryVals       map[*types.Var]Term
+	results         []*types.Var
+	boxed           map[*types.Var]bool
+	volatile        map[*types.Var]bool
+	loopOrd         int
+	paramSyms       map[string]string
+	defers          []deferred
+	abstracted      bool
+	unsupported     []string
+	specDepth       int
+	unfolded        map[string]bool
+	exprCount       map[string]int
+	retStates       []*State
+	curFuncLit      *ast.FuncLit
+	loopStack       []*loopCtx
+	havocAll        bool
+	loopAlloc       map[int]string // loop ordinal -> allocation counter at the head of its current iteration (freshin)
+	hvCounter       int            // generations of everything-havocs (see State.hvgen)
+	loopGens        map[int]bool   // generations created by loop-head havocs
+	allocSites      []allocSite
+	sliceDefs       map[string]string
+	lenHints        map[string]int64
 	calledContracts map[string]bool
-	usedLemmas map[string]bool
-	externalCalls map[string]bool
-	specErrors []string
-	deferList []*ast.CallExpr
-	goScan    int // 0 not scanned, 1 no go statement, 2 has go statement
-	spawned   []func(*State) // re-havoc of the modifies targets of spawned goroutines (see resync)
-	deferGuards []int
-	retCount  int
-	endPos    token.Pos
-	bodyPos   token.Pos
-	loopsSeen map[int]bool
-	funcLits  []*ast.FuncLit
-	rangeVars map[int]*types.Var
-	visitedVars map[int]*types.Var
-	inlineLit map[*ast.FuncLit]bool
-	litOfVar  map[*types.Var]*ast.FuncLit
-	inlineStack []*inlineFrame
-	mentionsHeld bool
-	curSt     *State // state of the statement being executed (for binding long terms)
+	usedLemmas      map[string]bool
+	externalCalls   map[string]bool
+	specErrors      []string
+	deferList       []*ast.CallExpr
+	goScan          int            // 0 not scanned, 1 no go statement, 2 has go statement
+	spawned         []func(*State) // re-havoc of the modifies targets of spawned goroutines (see resync)
+	deferGuards     []int
+	retCount        int
+	endPos          token.Pos
+	bodyPos         token.Pos
+	loopsSeen       map[int]bool
+	funcLits        []*ast.FuncLit
+	rangeVars       map[int]*types.Var
+	visitedVars     map[int]*types.Var
+	inlineLit       map[*ast.FuncLit]bool
+	litOfVar        map[*types.Var]*ast.FuncLit
+	inlineStack     []*inlineFrame
+	mentionsHeld    bool
+	curSt           *State // state of the statement being executed (for binding long terms)
 }
 
 type deferred struct {
-	call *ast.CallExpr
-	args []Term
-	recv *Term
+	call  *ast.CallExpr
+	args  []Term
+	recv  *Term
 	guard string
 }
 
@@ -300,6 +303,9 @@ func (u *Unit) havocAllHeaps(st *State) {
 		u.havocHeap(st, h)
 	}
 	u.havocAll = true
+	u.hvCounter++
+	st.hvgen = u.hvCounter
+	st.unk = true
 }
 
 func (u *Unit) newRef(st *State) string {
